@@ -120,16 +120,19 @@ pub fn c12(o: &Oracle, thorough: bool, seed: u64, rep: &Report) {
                     }
                     let e = token_word(o, &buf);
                     let got = guarded(|| (CKCNumber::from_index(&buf), ckc_rs::parse::get_rank_and_suit(&buf)));
+                    // strict: the parsed card; the individual (rank, suit) halves of get_rank_and_suit are
+                    // not part of the statement (advisory)
                     let ok = match &got {
-                        Ok((w, (r, su))) => {
-                            *w == e && {
-                                let mut it = buf.chars();
-                                let (a, b) = (it.next().unwrap(), it.next().unwrap());
-                                format!("{:?}", r) == rank_name_of(o, a) && format!("{:?}", su) == suit_name_of(o, b)
-                            }
-                        }
+                        Ok((w, _)) => *w == e,
                         Err(_) => false,
                     };
+                    if let Ok((_, (r, su))) = &got {
+                        let mut it = buf.chars();
+                        let (a, b) = (it.next().unwrap(), it.next().unwrap());
+                        if format!("{:?}", r) != rank_name_of(o, a) || format!("{:?}", su) != suit_name_of(o, b) {
+                            advise(rep, json!({"op":"parse_card","s":cps(&buf)}), json!({"rank": rank_name_of(o, a), "suit": suit_name_of(o, b)}), "get_rank_and_suit halves drift");
+                        }
+                    }
                     if !ok {
                         viol(rep, json!({"op":"parse_card","s":cps(&buf)}), json!({"ok": true, "res": hilo(e)}),
                              "a token parses to a card exactly when it starts with a rank symbol then a suit symbol");
